@@ -3,5 +3,6 @@ CONSTANTS
   Vary = {"sh", "shk"}
   Fns = {"Println"}
   Shs = {"-", "fmt"}
+  ScopeAware = FALSE
 INVARIANTS TypeOK Confluent ImportSound Export
 PROPERTIES Stable Terminates
